@@ -58,7 +58,7 @@ impl std::error::Error for ClosedStream {}
 
 /// The single, ordered event log of one scenario (shared by both endpoints in pair mode and by the application tasks).
 #[derive(Clone, Default)]
-pub struct Log(pub Arc<Mutex<Vec<Value>>>);
+pub struct Log(pub Arc<Mutex<Vec<Value>>>, pub Arc<std::sync::atomic::AtomicBool>);
 
 impl Log {
     pub fn push(&self, v: Value) {
@@ -67,11 +67,27 @@ impl Log {
         if v["ev"] == "wrote" {
             if let Some(last) = g.last_mut() {
                 if last["ev"] == "wrote" && last["sid"] == v["sid"] && last["net"] == v["net"] {
+                    // an endpoint that never stops writing must not make the trace unbounded: beyond 1 MiB in one run of
+                    // writes the bytes are dropped and the event is marked (`runaway`: no message of any scenario is that long)
+                    if last["runaway"] == true {
+                        return;
+                    }
+                    if last["bytes"].as_array().map(|a| a.len()).unwrap_or(0) > (1 << 17) {
+                        // keep the trace small: the verdict is "livelock", the bytes no longer matter
+                        last["runaway"] = json!(true);
+                        last["bytes"].as_array_mut().unwrap().truncate(1024);
+                        self.1.store(true, std::sync::atomic::Ordering::SeqCst);
+                        return;
+                    }
                     let more = v["bytes"].as_array().cloned().unwrap_or_default();
                     last["bytes"].as_array_mut().unwrap().extend(more);
                     return;
                 }
             }
+        }
+        if g.len() > 500_000 {
+            self.1.store(true, std::sync::atomic::Ordering::SeqCst);
+            return; // same guard for an endless sequence of distinct events
         }
         g.push(v);
     }
@@ -81,6 +97,10 @@ impl Log {
     }
     pub fn len(&self) -> usize {
         match self.0.lock() { Ok(g) => g.len(), Err(p) => p.into_inner().len() }
+    }
+    /// the endpoint under test produced output without end (see `push`)
+    pub fn runaway(&self) -> bool {
+        self.1.load(std::sync::atomic::Ordering::SeqCst)
     }
 }
 
